@@ -14,9 +14,14 @@ namespace ratio
         add_resolver(*new choose_value(smt::rational(1, 2), *this, !b_itm.l));
     }
 
-    bool_flaw::choose_value::choose_value(smt::rational cst, bool_flaw &bl_flaw, const smt::lit &val) : resolver(val, cst, bl_flaw) {}
+    // notice that the resolver has its own control literal: using the value itself as rho would force the flaw (and, hence, its causes) to be active, since 'val | !val' always holds..
+    bool_flaw::choose_value::choose_value(smt::rational cst, bool_flaw &bl_flaw, const smt::lit &val) : resolver(cst, bl_flaw), val(val) {}
 
     std::string bool_flaw::choose_value::get_data() const noexcept { return "{\"rho\":\"" + to_string(get_rho()) + "\"}"; }
 
-    void bool_flaw::choose_value::apply() {}
+    void bool_flaw::choose_value::apply()
+    { // activating this resolver assigns the value to the variable..
+        if (!get_solver().get_sat_core().new_clause({!get_rho(), val}))
+            throw unsolvable_exception();
+    }
 } // namespace ratio
